@@ -830,3 +830,27 @@ func (f *FS) Base() *FS {
 	}
 	return f.CopyTree()
 }
+
+// OpenCount is the number of open descriptors and memory mappings under the root (symbolic: handles of the
+// model file system; native: /proc/self/fd and /proc/self/maps).
+func (f *FS) OpenCount() int {
+	if f.sym {
+		return f.OpenHandles + f.OpenMaps
+	}
+	n := 0
+	if es, err := os.ReadDir("/proc/self/fd"); err == nil {
+		for _, e := range es {
+			if t, err := os.Readlink("/proc/self/fd/" + e.Name()); err == nil && strings.HasPrefix(t, f.Root+"/") {
+				n++
+			}
+		}
+	}
+	if b, err := os.ReadFile("/proc/self/maps"); err == nil {
+		for _, l := range strings.Split(string(b), "\n") {
+			if strings.Contains(l, f.Root+"/") {
+				n++
+			}
+		}
+	}
+	return n
+}
